@@ -63,7 +63,7 @@ def base_scenarios(rng, tier):
         for k in range(6):
             sc = T.fam_random(rng, 1, cfgs=(CFG_A, CFG_F), length=40)[0]
             # scripted one-shot verdicts are not reproducible across a re-processing: use persistent policy instead
-            sc["ops"] = [o for o in sc["ops"] if o.get("op") not in ("verdict", "crash", "boot")]
+            sc["ops"] = sc["ops"][:2] + [o for o in sc["ops"][2:] if o.get("op") not in ("verdict", "crash", "boot")]
             sc["name"] = "crash-random-%d" % k
             out.append(sc)
     return out
@@ -167,10 +167,20 @@ def main(tier, replay=None):
         verdict.disagree(tag, site, sclass, "C03: %s at %s (scenario %s, trace %s line %d)" % (what, ev["act"], sname, t["trace"], t["line"]),
                          {"scenarios": ([refs[sname]] if sname in refs else []) + [t["scenario"]], "tag": [t["line"], t["prop"], what],
                           "event": ev})
+    e2e_stats = {}
+    if not replay:
+        # the real teosd binary killed (SIGKILL) and restarted on its data directory: the bootstrap of main.rs itself
+        import e2e
+        for t in e2e.run(PID, tier):
+            verdict.disagree(t["what"], t["event"]["act"], "e2e-" + t["scenario"]["name"].split("-")[0],
+                             "C03 (teosd binary): %s at %s (scenario %s, trace %s line %d)" % (t["what"], t["event"]["act"], t["scenario"]["name"], t["trace"], t["line"]),
+                             {"scenarios": [t["scenario"]], "tag": [t["line"], t["prop"], t["what"]], "event": t["event"], "tier": "e2e"})
+        e2e_stats = e2e.last_stats
     nviol = verdict.finish()
     if replay:
         return 1 if nviol else 0
     write_evidence(PID, tier, "fault_enumeration", {
+        "end_to_end_teosd_binary": e2e_stats,
         "evaluations": camp.scenarios,
         "distinct_nontrivial": stats["crash_points_run"],
         "rule": "a case = (history, crash point k): the k-th instant immediately before/after a durable write or node RPC of that history; "
